@@ -274,6 +274,18 @@ let check (case : Sexp.t) : unit =
           if ok1 && ok2 && ok3 then result id "OK" "fault" ""
         | None, _ -> ()
         | _, None -> result id "ERR" "abs" "reference arena is not a tree"))
+  | List [Atom "case"; Atom id; Atom "raxes"; sb; List (Atom "mask" :: _); sa; sa2] ->
+    bump "remove_axes";
+    (match sa with
+     | Atom "panic" -> result id "VIOL" "remove-axes-panic" "remove_axes panicked on a mask of the right length"
+     | Atom "err" -> result id "VIOL" "remove-axes-panic" "remove_axes returned Err on a mask of the right length"
+     | _ ->
+       let a = itree_of sa in
+       count_states a;
+       if List.exists (fun nd -> nd.nstate <> Indet) (itree_of sb).nodes then bump "nontrivial";
+       let ok1 = cache_ok ~id ~tag:"cache-remove-axes" a in
+       let ok2 = (match sa2 with Atom "panic" -> true | s2 -> cache_ok ~id ~tag:"cache-remove-axes-then-elim" (itree_of s2)) in
+       if ok1 && ok2 then result id "OK" "cache" "")
   | List [Atom "case"; Atom id; Atom "mirror"; sp; spts; Atom iters; sres] ->
     bump "mirror_case";
     let p = aff_of sp in
